@@ -60,7 +60,8 @@ func (pass *InlineObjectsWithTypes) Process(schemas []*ast.Schema) ([]*ast.Schem
 				return
 			}
 
-			pass.objectsToInline.Set(object.SelfRef.String(), resolvedType)
+			// the visitor rewrites types in place: keep a copy that is not shared with the schemas
+			pass.objectsToInline.Set(object.SelfRef.String(), resolvedType.DeepCopy())
 		})
 	}
 
